@@ -3,6 +3,7 @@ package props
 import (
 	"fmt"
 	"os"
+	"path/filepath"
 	"regexp"
 	"sort"
 	"strings"
@@ -92,6 +93,9 @@ func c17BaseDocOps(r *sim.Rand, slot int, multiHF bool) []sim.Op {
 	if r.Chance(0.3) {
 		ops = append(ops, ph("{{#if show}}shown {{n}}{{/if}} tail"))
 	}
+	if r.Chance(0.4) {
+		ops = append(ops, ph("{{#image pic}}"))
+	}
 	ops = append(ops, g.DocOps(slot, r.Range(0, 3))...)
 	return ops
 }
@@ -110,7 +114,12 @@ func (c17) Gen(r *sim.Rand, c *sim.Case, tier string) {
 		setup = append(setup, c17BaseDocOps(r, s, Wild && r.Bool())...)
 	}
 	for i := 0; i < 3; i++ {
-		setup = append(setup, sim.Op{K: "e.data", I: []int{i}, S: []sim.Str{sim.Str(tg.Data().JSON())}})
+		d := tg.Data()
+		if r.Chance(0.6) {
+			// a picture for the image placeholder of document templates, handed over with and without a configuration, alt text and title
+			d.Images = map[string][]int{"pic": world.TplImageSpec(r, []int{r.Intn(3), r.Range(2, 12), r.Range(2, 12), 880000 + i})}
+		}
+		setup = append(setup, sim.Op{K: "e.data", I: []int{i}, S: []sim.Str{sim.Str(d.JSON())}})
 	}
 	baseA := func() string {
 		return tsrc(tg.Seq(1)) + "{{#block \"b1\"}}" + tsrc([]*TNode{tg.lit(), {Kind: "var", Name: "v1"}}) + "{{/block}}" + tsrc(tg.Seq(1)) +
@@ -552,7 +561,7 @@ func (r *c17run) solo(chain []string, dataIdx, entry int) string {
 		}
 	}
 	leaf := r.srcs[chain[0]]
-	data := r.dataSrc[dataIdx].ToLib()
+	data := r.dataSrc[dataIdx].ToLibIn(filepath.Join(r.w.Tmp, "tplimg"))
 	var doc *document.Document
 	var err error
 	if entry == 0 {
@@ -684,11 +693,11 @@ func (p c17) Exec(c *sim.Case, env *Env) []sim.Violation {
 		case op.K == "e.data":
 			d := ParseTData(op.Str(0))
 			r.dataSrc = append(r.dataSrc, d)
-			r.data = append(r.data, d.ToLib())
+			r.data = append(r.data, d.ToLibIn(filepath.Join(r.w.Tmp, "tplimg")))
 		case strings.HasPrefix(op.K, "e."):
 			if len(r.data) == 0 {
 				d := &TData{}
-				r.dataSrc, r.data = append(r.dataSrc, d), append(r.data, d.ToLib())
+				r.dataSrc, r.data = append(r.dataSrc, d), append(r.data, d.ToLibIn(filepath.Join(r.w.Tmp, "tplimg")))
 			}
 			ev := c17ev{task: 0, op: op, call: c17stamp()}
 			var out string
@@ -707,7 +716,7 @@ func (p c17) Exec(c *sim.Case, env *Env) []sim.Violation {
 	}
 	if len(r.data) == 0 {
 		d := &TData{}
-		r.dataSrc, r.data = append(r.dataSrc, d), append(r.data, d.ToLib())
+		r.dataSrc, r.data = append(r.dataSrc, d), append(r.data, d.ToLibIn(filepath.Join(r.w.Tmp, "tplimg")))
 	}
 	for slot := range r.baseOps {
 		r.baseDig[slot] = FieldDigests(r.w.Doc(slot).D)
@@ -915,6 +924,10 @@ func (c17) Witnesses() []*sim.Case {
 		w.SchedSeed = seed
 		twice = append(twice, w)
 	}
+	// regression witness of the fixed finding render-writes-image-config: an image handed over with a configuration of its own and with details
+	picData := sim.Op{K: "e.data", I: []int{0}, S: []sim.Str{`{"v":{"name":"N"},"i":{"pic":[0,9,8,880002,5,79,77,2]}}`}}
+	twice = append(twice, mk("render-writes-image-config: the alt text of the placeholder is written into the caller's configuration",
+		[]sim.Op{{K: "para", S: []sim.Str{"{{#image pic}}"}}, picData}, []sim.Op{{K: "e.loaddoc", I: []int{4, 0}}, {K: "e.render", I: []int{4, 1, 0, 0}}}))
 	return append(twice, []*sim.Case{
 		mk("parent-mutated-by-child-load: the base renders the child's block", []sim.Op{data, load(0, base)}, []sim.Op{render(0), load(1, child), render(0)}),
 		mk("parent-mutated-by-child-load: a sibling renders the last-loaded child's block", []sim.Op{data, load(0, base), load(1, child)}, []sim.Op{render(1), load(2, child2), render(1)}),
